@@ -1,5 +1,5 @@
 """C07 - containers and stores are bounded, conservative, ordered, never strand a request"""
-from . import resources as R, whomay
+from . import resources as R, whomay, guards
 
 def check(ctx):
     R.run_tables(ctx, 'C07', [
@@ -19,6 +19,9 @@ def check(ctx):
     whomay.items_writers(ctx, 'C07')
     whomay.queue_writers(ctx, 'C07')
     whomay.heap_imports(ctx, 'C07')
+    guards.nan_refused(ctx, 'C07', [('ContainerPut', '__init__', 'amount'), ('ContainerGet', '__init__', 'amount'),
+                                    ('Container', '__init__', 'capacity'), ('Container', '__init__', 'init')],
+                       'a NaN level or amount makes every later guard False: the level leaves [0, capacity] and requests are stranded')
     return ('Static: Container guards (level + amount <= capacity, amount <= level) and constructor bounds, Store '
             '(append / pop(0), len < capacity), PriorityStore (heappush / heappop on the same list), FilterStore (first '
             'match, never blocks the scan), the shared scan loops, request constructors and cancel-with-rescan compared '
